@@ -53,6 +53,39 @@ theorem margin_flat_zero (w : World K) (b : Broker K) (k : Key) (hmr : (w.spec k
   obtain ⟨p, _, _, h3⟩ := hm hmr
   rw [h3, h0]; simp
 
+/-- **A flat position holds no margin after a mark, whether or not the contract is quoted** (repair F11: the
+    settlement of a closing trade is returned to cash even when no liquidation price is available) -/
+theorem flat_margin_zero_after_mark (w : World K) (D : K) (k : Key) (b : Broker K) (h : Inv w D b)
+    (h0 : b.pos k = 0) : (mark1 w k b).margin k = 0 := by
+  by_cases hmr : (w.spec k).mr = 0
+  · have : mark1 w k b = b := by unfold mark1; simp [hmr]
+    rw [this]; exact h.spot0 k hmr
+  · rcases mark1_cases w k b with e | ⟨p, lp, _, _, _, e⟩ | ⟨_, _, _, e⟩
+    · -- nothing done: a price without a last mark means the contract was never traded
+      rw [e]
+      unfold mark1 at e
+      simp only [hmr, if_false] at e
+      by_cases hk : k ∈ b.held
+      · -- traded before: a last mark exists, so `mark1` acted unless no price ... but then the flat branch acted
+        cases hq : liqPrice b k (b.pos k) with
+        | none =>
+            rw [hq] at e
+            simp only [h0, if_true] at e
+            have := congrArg (fun x => x.margin k) e
+            simp only [upd_same] at this
+            exact this.symm
+        | some p =>
+            cases hl : b.lastMark k with
+            | none => exact absurd hl (h.marked k hk)
+            | some lp =>
+                rw [hq, hl] at e
+                have := congrArg (fun x => x.margin k) e
+                simp only [upd_same, h0] at this
+                rw [← this]; simp [absv]
+      · exact (h.fresh k hk).2.1
+    · rw [e]; simp only [upd_same, h0]; simp [absv]
+    · rw [e]; simp only [upd_same]
+
 /-- contracts without a margin requirement hold no margin, in every reachable state -/
 theorem spot_margin_zero (pw : K → K → K) (w : World K) (D : K) (hw : ∀ k, WFSpec (w.spec k))
     (ops : List (Op K)) (hs : (runOps pw w (Broker.init D) ops).snapped = false)
